@@ -129,6 +129,8 @@ def step_harness(log, race=False):
             open(hs_path, "w").write(rs)
     except OSError:
         pass
+    if REPO != "/repo":   # a scratch copy of the repository (mutation matrix runs): point the module there
+        sh(["go", "mod", "edit", "-replace", "github.com/scrapli/scrapligo=" + REPO], cwd=hd, env=GOENV, timeout=60)
     rc, out = sh(cmd, cwd=hd, env=GOENV, timeout=1200)
     if rc != 0:
         log.append("harness build failed:\n" + out[-4000:])
